@@ -132,8 +132,17 @@ func (vc *VC) callMods(c *ssa.CallCommon, li *loopInfo) {
 		for _, m := range fc.Modifies {
 			if m == "all" {
 				li.modAll = true
-				return
 			}
+		}
+		if li.modAll {
+			// ghost variables named next to "all" are still recorded: owned ghosts survive a general
+			// havoc and have to be havocked by name at the loop head
+			for _, m := range fc.Modifies {
+				if _, ok := vc.prog.cs.Ghosts[m]; ok {
+					li.mods["#ghost."+m] = true
+				}
+			}
+			return
 		}
 		// conservative: havoc every key named by the callee's modifies targets
 		for _, m := range fc.Modifies {
@@ -176,6 +185,10 @@ func (vc *VC) call(x *ssa.Call, st *State) {
 	if tv != nil {
 		vc.vals[x] = *tv
 	}
+	if vc.fc != nil && vc.inlineDepth == 0 {
+		key, fn, _ := vc.calleeKey(x.Common())
+		vc.hintsAtCall("after:", key, fn, st)
+	}
 	vc.callPost[x] = st.clone()
 }
 
@@ -195,6 +208,7 @@ func (vc *VC) doCall(c *ssa.CallCommon, v ssa.Value, st *State, pos token.Pos) *
 		args = append(args, vc.val(a))
 	}
 	if vc.fc != nil && vc.inlineDepth == 0 {
+		vc.hintsAtCall("before:", key, fn, st)
 		for i, cp := range vc.fc.CallPres {
 			if !strings.Contains(key, cp.Callee) && !(fn != nil && strings.Contains(fn.String(), cp.Callee)) {
 				continue
@@ -1121,4 +1135,24 @@ func (vc *VC) localChanSingleClose(fv *ssa.FreeVar, cl *ssa.CallCommon) bool {
 func isFreeVarOf(v ssa.Value, _ []ssa.Instruction) bool {
 	_, ok := v.(*ssa.FreeVar)
 	return ok
+}
+
+// hintsAtCall applies the hints (unfold / use lemma / assume) placed "@before:<callee>" or
+// "@after:<callee>" in the state st.
+func (vc *VC) hintsAtCall(prefix, key string, fn *ssa.Function, st *State) {
+	if vc.fc == nil {
+		return
+	}
+	seen := map[string]bool{}
+	for _, h := range vc.fc.Hints {
+		if !strings.HasPrefix(h.At, prefix) || seen[h.At] {
+			continue
+		}
+		sub := h.At[len(prefix):]
+		if !strings.Contains(key, sub) && !(fn != nil && strings.Contains(fn.String(), sub)) {
+			continue
+		}
+		seen[h.At] = true
+		vc.applyHints(-1, h.At, vc.newEnv(st, vc.entrySt))
+	}
 }
